@@ -31,6 +31,9 @@ fn check_contexts<S: Subject>(plan: &Plan, ctx: &Ctx, stats: &mut Stats) -> Resu
         for p in S::ctx_probes(&sim.reps[r].st, &actors) {
             stats.observations += 1;
             let fail = |msg: String| Fail::new(format!("r{r}: read entry point {}: {msg}", p.entry));
+            if let Some(n) = &p.note {
+                return Err(fail_with(&sim, stats, fail(n.clone())));
+            }
             if clock_json(&p.add_clock) != model_clock {
                 return Err(fail_with(&sim, stats, fail(format!("add_clock {:?} is not the clock of everything applied {model_clock}", p.add_clock))));
             }
@@ -113,7 +116,7 @@ pub fn property() -> Property {
     add::<MapMVRegBig>(&mut jobs, "ops+merges", Disc::Causal, Weights::mixed(), &[Class::T1, Class::T2, Class::T5], 3750, 37500);
     Property {
         id: "C07",
-        rule: "The C04/C05/C06 histories on TOP-LEVEL Orswot, Map<u8,Orswot>, Map<u8,MVReg> and MVReg; after every step every read entry point of the affected replica (read, read_ctx, contains(m) for every member, get(k) for every key, iter, keys, values, len, is_empty) is called and contexts are derived for the replica's own actor, every other replica's actor and an unused actor. Oracle: add_clock = per-actor max dot of the knowledge set (MVReg: join of the visible writes' contexts); whole-state reads have rm_clock == add_clock; element reads have rm_clock == exact surviving witness (model), empty iff absent, <= add_clock; derive_add_ctx(a).dot == (a, add_clock[a]+1), .clock == add_clock joined with the dot, and at the actor's own replica the dot is greater than every dot that actor ever issued (globally fresh); derive_rm_ctx().clock == rm_clock. Non-trivial = probed state whose clock mentions >=2 actors, with >=1 removed element and >=1 element witnessed by two actors; distinct = distinct Plan hash.".into(),
+        rule: "The C04/C05/C06 histories on TOP-LEVEL Orswot, Map<u8,Orswot>, Map<u8,MVReg> and MVReg; after every step every read entry point of the affected replica (read, read_ctx, contains(m) for every member, get(k) for every key, iter, keys, values, len, is_empty -- each also through ReadCtx::split(), which must keep value and both clocks) is called and contexts are derived for the replica's own actor, every other replica's actor and an unused actor. Oracle: add_clock = per-actor max dot of the knowledge set (MVReg: join of the visible writes' contexts); whole-state reads have rm_clock == add_clock; element reads have rm_clock == exact surviving witness (model), empty iff absent, <= add_clock; derive_add_ctx(a).dot == (a, add_clock[a]+1), .clock == add_clock joined with the dot, and at the actor's own replica the dot is greater than every dot that actor ever issued (globally fresh); derive_rm_ctx().clock == rm_clock. Non-trivial = probed state whose clock mentions >=2 actors, with >=1 removed element and >=1 element witnessed by two actors; distinct = distinct Plan hash.".into(),
         assumptions: vec!["top-level replicas only (not values nested in a Map), as the property states".into(), "Map key witnesses after merges inherit MAP-T1 (exempted per key, counted); Map<_,MVReg> values MAP-T2/T5 (extras only; witnesses must still match)".into()],
         jobs,
     }
